@@ -32,7 +32,8 @@ CONSTANTS
   Sizes, Durs, ArgsSet, Pads,   \* setting domains: sizes <<w, h>>, durations (Dyn = DYNAMIC),
                                 \* opaque args, padding records (see PadDims)
   SeekOffs,   \* offsets tried by Seek
-  TW, TH,     \* terminal size (relative paddings resolve against it)
+  TW, TH,     \* initial terminal size (relative paddings resolve against the CURRENT one)
+  Terms,      \* terminal sizes the environment may switch to (Resize); {} = never resized
   MaxDepth
 
 VARIABLES s, out
@@ -60,6 +61,11 @@ PadDims(p, size) ==
            l == Lead(pw, p.ha)
            t == Lead(ph, p.va)
        IN <<l, t, pw - l, ph - t>>
+\* set_padding() resolves a terminal-relative padding against the terminal size AT THE TIME OF
+\* THE CALL; the iterator keeps the resolved padding (a later resize alone changes nothing, a
+\* set_padding() after a resize sees the new size)
+ResolvePad(p, term) ==
+  IF p.kind = "aligned" THEN [p EXCEPT !.w = Resolve(p.w, term[1]), !.h = Resolve(p.h, term[2])] ELSE p
 PaddedSize(p, size) == LET d == PadDims(p, size) IN <<d[1] + size[1] + d[3], d[2] + size[2] + d[4]>>
 
 Frames == 0..(N - 1)
@@ -70,7 +76,7 @@ InitStates ==
     pend |-> IF Definite THEN NoPend ELSE InitPend, pos |-> 0,
     size |-> <<2, 1>>, dur |-> 50, args |-> "a0", pad |-> NoPad,
     cached |-> (Definite /\ c), cache |-> IF Definite /\ c THEN EmptyCache ELSE <<>>,
-    own |-> o, fin |-> 0, loops |-> IF Definite THEN l ELSE 1] :
+    own |-> o, fin |-> 0, loops |-> IF Definite THEN l ELSE 1, term |-> <<TW, TH>>] :
      l \in LoopsSet, c \in CacheSet, o \in OwnSet}
 
 (* ---------------------------------------------------------------------- *)
@@ -156,6 +162,9 @@ DoSet(t, field, v, valid, err) ==
   ELSE IF ~valid THEN <<t, [res |-> err]>>
   ELSE <<[t EXCEPT ![field] = v], [res |-> "ok"]>>
 
+DoSetPad(t, p) == DoSet(t, "pad", ResolvePad(p, t.term), TRUE, "")
+DoResize(t, z) == <<[t EXCEPT !.term = z], [res |-> "ok"]>>   \* the environment: always possible
+
 DoClose(t) == <<IF t.closed THEN t ELSE Finalized(t), [res |-> "ok"]>>
 
 (* ---------------------------------------------------------------------- *)
@@ -181,7 +190,8 @@ Seek == \E o \in SeekOffs, wh \in Whences :
           Do([name |-> "seek", off |-> o, whence |-> wh], DoSeek(s, o, wh))
 SetDuration == \E d \in Durs \cup {0} :
                  Do([name |-> "set_frame_duration", v |-> d], DoSet(s, "dur", d, d # 0, "ValueError"))
-SetPadding == \E p \in Pads : Do([name |-> "set_padding", v |-> p], DoSet(s, "pad", p, TRUE, ""))
+SetPadding == \E p \in Pads : Do([name |-> "set_padding", v |-> p], DoSetPad(s, p))
+Resize == \E z \in Terms \ {s.term} : Do([name |-> "resize", v |-> z], DoResize(s, z))
 SetArgs == \E a \in ArgsSet \cup {"incompatible"} :
              Do([name |-> "set_render_args", v |-> a],
                 DoSet(s, "args", a, a # "incompatible", "IncompatibleRenderArgsError"))
@@ -194,7 +204,7 @@ Drop == /\ ~s.closed
 Init == /\ s \in InitStates
         /\ out = [op |-> [name |-> "init"], r |-> [res |-> "ok"]]
         /\ PrintT(<<"INIT", ToJson(s)>>)
-Next == ~s.dropped /\ (Next_ \/ NextFails \/ NextReclose \/ Seek \/ SetDuration \/ SetPadding \/ SetArgs \/ SetSize \/ Close \/ Drop)
+Next == ~s.dropped /\ (Next_ \/ NextFails \/ NextReclose \/ Seek \/ SetDuration \/ SetPadding \/ SetArgs \/ SetSize \/ Resize \/ Close \/ Drop)
 Spec == Init /\ [][Next]_vars
 
 Bound == TLCGet("level") <= MaxDepth
@@ -226,6 +236,8 @@ SettingsOnlyBySetter ==
      /\ (s'.dur # s.dur => IsOp("set_frame_duration"))
      /\ (s'.args # s.args => IsOp("set_render_args"))
      /\ (s'.pad # s.pad => IsOp("set_padding"))]_vars
+\* a terminal resize by itself changes nothing the iterator shows
+ResizeAloneChangesNothing == [][IsOp("resize") => [s' EXCEPT !.term = s.term] = s]_vars
 \* a yielded frame carries the CURRENT settings (cache invisible, C09) and the frame number
 \* the history dictates
 FrameMatchesSettings ==
